@@ -16,7 +16,8 @@ static void make_file(file_builder& f) { pnm_file(f, 1); }
 #else
 #include <boost/gil/extension/io/targa.hpp>
 using tag_t = gil::targa_tag;
-static void make_file(file_builder& f) { targa_file(f, 1); }
+// a valid file: without a colour map (type 0) the colour map specification (bytes 3..7) is zero; GIL rejects anything else
+static void make_file(file_builder& f) { targa_file(f, 1); if (vp_param(2) == 0) for (unsigned long i = 3; i < 8; ++i) f.u8(i, 0); }
 #endif
 using pix_t = PIX;
 using img_t = gil::image<pix_t, false>;
